@@ -804,6 +804,13 @@ def source_files():
 
 def build(out_path, only=None, exclude=None):
     report = dict(functions=[], rules_applied=set(), repo=REPO)
+    # the crate's trait must still be the two-method interface the shim's `View` contract was written for (no default bodies, no new
+    # methods) and every module file must be one of the three view directories' files: anything else is outside the supported subset
+    lib = strip_comments(open(os.path.join(REPO, 'src', 'lib.rs')).read())
+    tm = re.search(r'pub trait View<T: num::Float>\s*\{(.*?)\n\}', lib, re.S)
+    body = re.sub(r'\s+', ' ', tm.group(1)).strip() if tm else None
+    if body != 'fn update(&mut self, val: T); fn last(&self) -> Option<T>;' or len(re.findall(r'\bimpl\b', lib)) > 0:
+        raise ExtractError('src/lib.rs: the View trait (or lib.rs) changed shape: %r' % (body,))
     em = Emitter()
     shim = open(os.path.join(VF, 'shim.rs')).read()
     head, tail = shim.split('//@@MODULES@@')
